@@ -107,12 +107,22 @@ def formatter():
     return _FMT
 
 
+_impl_realign_n = [0]
+
+
 def impl_realign(d):
     fm = formatter()[0]
+    # the re-balancing does not depend on how the formatter is configured: the same answer under every normalize value
+    # and with use_replace (the model knows one answer)
+    k = len(d) + sum(len(t) + ord(t[0]) for _, t in d if t)      # a function of the case, so that a replay repeats it
+    fm.normalize = (0, 1, 2, 3)[k % 4]
+    fm.use_replace = bool(k % 3 == 0)
     try:
         r = fm._realign_placeholders(list(d))
     except Exception as ex:  # noqa
         return exc_name(ex), None
+    finally:
+        fm.normalize, fm.use_replace = 0, False
     r = [tuple(x) for x in r]
     try:
         j = fm._join_delete_insert(list(r))
